@@ -40,6 +40,9 @@ type c05Op struct {
 	Cert   bool   `json:"cert"`   // adv: attach B's keymaster client certificate
 	Value  string `json:"value"`  // fresh | stale | replay | expired
 	Extra  int    `json:"extra"`
+	// Also > 0: the request carries TWO auth cookies: known cookie (Also-1) first,
+	// the one selected by Cookie last (browsers and attackers can send both)
+	Also int `json:"also,omitempty"`
 }
 
 type c05Case struct {
@@ -72,6 +75,9 @@ func c05Gen(t *rapid.T) c05Case {
 		op.Cert = rapid.IntRange(0, 3).Draw(t, "cert") == 0
 		op.Value = rapid.SampledFrom([]string{"fresh", "fresh", "fresh", "replay", "stale", "expired", "writefault"}).Draw(t, "value")
 		op.Extra = rapid.IntRange(0, 5).Draw(t, "extra")
+		if rapid.IntRange(0, 4).Draw(t, "two") == 0 {
+			op.Also = rapid.IntRange(1, 8).Draw(t, "also")
+		}
 		c.Ops = append(c.Ops, op)
 	}
 	// attack motifs: multi-step sequences whose steps must line up (same push
@@ -124,7 +130,7 @@ func c05Gen(t *rapid.T) c05Case {
 			firstValue = "writefault" // the profile store refuses the write that would consume the value
 		}
 		c.Ops = append(c.Ops,
-			c05Op{Actor: "adv", Kind: k, Cookie: ck("m1"), Cert: cert("mc"), Value: firstValue},
+			c05Op{Actor: "adv", Kind: k, Cookie: ck("m1"), Cert: cert("mc"), Value: firstValue, Also: rapid.SampledFrom([]int{0, 0, 1, 2, 3}).Draw(t, "malso")},
 			c05Op{Actor: "adv", Kind: k, Cookie: ck("m2"), Value: "replay"},
 			c05Op{Actor: "adv", Kind: "cert-a", Cookie: ck("m3"), Value: "fresh"})
 	}
@@ -244,6 +250,10 @@ func (r *c05Run) learn(kind string, resp *vResp) {
 }
 
 func (r *c05Run) advRequest(op c05Op, req *http.Request) {
+	if op.Also > 0 && op.Cookie >= 0 && len(r.kAuth) > 0 {
+		vAddAuthCookie(req, r.kAuth[(op.Also-1)%len(r.kAuth)])
+		r.res.label("two-auth-cookies")
+	}
 	if op.Cookie >= 0 && len(r.kAuth) > 0 {
 		vAddAuthCookie(req, r.kAuth[op.Cookie%len(r.kAuth)])
 	}
